@@ -342,8 +342,159 @@ def run_tell(config: str, n_obj: int, part: Part) -> None:
         finally:
             env.close()
 
+# ---------------------------------------------------------------------------------------------
+# n_jobs = 2: Study.optimize's own thread pool under the cooperative scheduler (thx)
+# ---------------------------------------------------------------------------------------------
+PAR_BEHAVIOURS = [("ret", "1.0", ()), ("ret", "None", ()), ("ret", "'5'", ()), ("raise", "ValueError", ()),
+                  ("raise", "TrialPruned", (1.0,)), ("raise", "CustomError", ())]
+
+
+class ParRun:
+    def __init__(self, prog: tuple, catch_name: str, cb_name: str) -> None:
+        import importlib
+
+        from . import thx
+
+        self.prog, self.catch_name, self.cb_name = prog, catch_name, cb_name
+        self.mods = [importlib.import_module("optuna.study._optimize"), importlib.import_module("optuna.storages._in_memory")]
+        thx.set_instrumented(self.mods)
+
+    def execute(self, ch: Any) -> dict:
+        import optuna.study._optimize as opt
+
+        from . import thx
+
+        menu = values_menu()
+        catch = {"()": (), "(ValueError,)": (ValueError,)}[self.catch_name]
+        backends.reset_uuid()
+        study = optuna.create_study(storage=optuna.storages.InMemoryStorage(), sampler=optuna.samplers.RandomSampler(seed=0))
+        thx.replace_locks(study._storage)
+        ran: list = []
+        cb_calls: list = []
+        out: dict = {"raised": None}
+
+        def objective(trial: optuna.Trial) -> Any:
+            b = self.prog[min(trial.number, len(self.prog) - 1)]
+            ran.append((trial.number, b))
+            trial.suggest_float("x", 0, 1)
+            for step, v in enumerate(b[2]):
+                trial.report(v, step)
+            if b[0] == "raise":
+                raise EXCS[b[1]]("boom")
+            return menu[b[1]]
+
+        def cb(study_: Any, ft: Any) -> None:
+            cb_calls.append(ft.number)
+            if self.cb_name == "stop" and ft.number == 0:
+                study_.stop()
+
+        sched = thx.Sched(ch, max_steps=100000)
+        real_pool, real_wait = opt.ThreadPoolExecutor, opt.wait
+        opt.ThreadPoolExecutor, opt.wait = thx.SchedExecutor, thx.sched_wait
+
+        def main() -> None:
+            try:
+                study.optimize(objective, n_trials=len(self.prog), n_jobs=2, catch=catch, callbacks=[cb])
+            except thx.DeadlockAbort:
+                raise
+            except BaseException as e:
+                out["raised"] = e
+
+        try:
+            threads = sched.run([main])
+        finally:
+            opt.ThreadPoolExecutor, opt.wait = real_pool, real_wait
+        errs = [t.error for t in threads if t.error and t.error != "deadlock"]
+        if errs:
+            raise InternalError(f"driver error {errs}")
+        trials = study.get_trials(deepcopy=False)
+        return {"ran": ran, "cb": cb_calls, "raised": out["raised"], "deadlock": sched.deadlock, "steps": sched.step,
+                "trials": [(t.number, t.state, t.values) for t in trials]}
+
+    def check(self, ex: dict) -> list[tuple[str, str]]:
+        bad: list = []
+        if ex["deadlock"]:
+            return [("deadlock", "")]
+        menu = values_menu()
+        catch = {"()": (), "(ValueError,)": (ValueError,)}[self.catch_name]
+        by_num = dict(ex["ran"])
+        for num, st, vals in ex["trials"]:
+            b = by_num.get(num)
+            if not st.is_finished():
+                bad.append((f"trial-left-{st.name}", f"{b}"))
+                continue
+            if b is None:
+                continue
+            if b[0] == "ret":
+                kind, fl = expected_complete(menu[b[1]], 1)
+                if kind == "complete" and (st != TrialState.COMPLETE or vals != fl):
+                    bad.append(("convertible-return-not-COMPLETE", b[1]))
+                if kind == "fail" and st != TrialState.FAIL:
+                    bad.append(("unconvertible-return-not-FAIL", b[1]))
+            elif b[1] == "TrialPruned":
+                if st != TrialState.PRUNED:
+                    bad.append(("TrialPruned-not-PRUNED", ""))
+            elif st != TrialState.FAIL:
+                bad.append(("exception-not-FAIL", b[1]))
+            if st == TrialState.FAIL and vals is not None:
+                bad.append(("FAIL-trial-carries-values", ""))
+        uncaught = [b for _, b in ex["ran"] if b[0] == "raise" and b[1] != "TrialPruned" and not isinstance(EXCS[b[1]]("x"), catch)]
+        if uncaught:
+            if ex["raised"] is None or not any(isinstance(ex["raised"], EXCS[b[1]]) for b in uncaught):
+                bad.append(("uncaught-exception-did-not-propagate", f"{[b[1] for b in uncaught]} raised={type(ex['raised']).__name__}"))
+        else:
+            if ex["raised"] is not None:
+                bad.append((f"optimize-raised-{type(ex['raised']).__name__}-without-uncaught-objective-exception", ""))
+            elif self.cb_name == "recorder":
+                if len(ex["trials"]) != len(self.prog):
+                    bad.append(("n_trials-not-respected", str(len(ex["trials"]))))
+                if sorted(ex["cb"]) != [t[0] for t in ex["trials"]]:
+                    bad.append(("callbacks-not-once-per-trial", str(ex["cb"])))
+            elif len(ex["trials"]) > len(self.prog):
+                bad.append(("more-than-n_trials", str(len(ex["trials"]))))
+        return bad
+
+
+def par_task(task: tuple) -> dict:
+    from .explore import Chooser, explore
+
+    _, prog, catch_name, cb_name, bound = task
+    backends.setup_determinism()
+    part = Part()
+    run = ParRun(prog, catch_name, cb_name)
+    outcomes: set = set()
+    first = {"done": False}
+
+    def on_exec(ch: Any, ex: dict) -> None:
+        part.add("evaluations")
+        part.add("transitions", ex["steps"])
+        sig = (tuple((n, s.name, tuple(v) if v else None) for n, s, v in ex["trials"]), type(ex["raised"]).__name__)
+        if not first["done"]:
+            ex2 = run.execute(Chooser(ch.choices))
+            sig2 = (tuple((n, s.name, tuple(v) if v else None) for n, s, v in ex2["trials"]), type(ex2["raised"]).__name__)
+            if sig2 != sig:
+                raise InternalError(f"replaying one schedule twice differed: {task}")
+            first["done"] = True
+        outcomes.add(sig)
+        for clause, detail in run.check(ex):
+            part.violation(f"optimize(n_jobs=2)|{clause}", {"program": prog, "catch": catch_name, "callback": cb_name,
+                                                            "schedule": ch.choices, "clause": clause, "detail": detail,
+                                                            "trials": [(n, s.name, v) for n, s, v in ex["trials"]],
+                                                            "raised": repr(ex["raised"])})
+
+    st = explore(run.execute, bound, on_exec, max_execs=20000)
+    if st["capped"]:
+        part.add("caps_hit")
+    part.add("states", len(outcomes))
+    part.add("parallel_scenarios")
+    part.setmax("max_points", st["max_points"])
+    return part.out()
+
+
 
 def task_fn(task: tuple) -> dict:
+    if task[0] == "par":
+        return par_task(task)
     backends.setup_determinism()
     part = Part()
     kind = task[0]
@@ -404,17 +555,26 @@ def run(tier: str, replay: str | None = None) -> int:
     for cfg in (("mem", "jfile-sym") if tier == "quick" else ("mem", "jfile-sym", "grpc(mem)", "cached")):
         for n_obj in (1, 2):
             tasks.append(("tell", cfg, n_obj))
+    # n_jobs=2 under the thread scheduler (preemption bound 1 quick / 2 thorough)
+    for a in PAR_BEHAVIOURS:
+        for b in PAR_BEHAVIOURS:
+            for catch in (("()",) if tier == "quick" else ("()", "(ValueError,)")):
+                tasks.append(("par", (a, b), catch, "recorder", 1 if tier == "quick" else 2))
+    for prog in [(PAR_BEHAVIOURS[0],) * 3, (PAR_BEHAVIOURS[3], PAR_BEHAVIOURS[0], PAR_BEHAVIOURS[0]),
+                 (PAR_BEHAVIOURS[0], PAR_BEHAVIOURS[0], PAR_BEHAVIOURS[3])]:
+        tasks.append(("par", prog, "()", "recorder", 1))
+        tasks.append(("par", prog, "(ValueError,)", "stop", 1))
     pmap(ctx, task_fn, tasks)
     ctx.cov["traces_validated_against_impl"] = ctx.cov.get("evaluations", 0)
     ctx.assumptions += [
-        "sequential optimize (n_jobs=1); n_jobs>1 is not explored by this check",
+        "n_jobs=2: Study.optimize's ThreadPoolExecutor/wait are rebound to scheduler-controlled equivalents; preemption at source lines of optuna/study/_optimize.py and the in-memory storage, bound 1 (quick) / 2 (thorough)",
         "a str/bytes return value is both a Sequence and float()-able as a whole: FAIL or COMPLETE-with-that-float are both accepted",
         "which terminal state a trial gets when a sampler/pruner hook raises is not specified; it must be terminal",
     ]
     backends.cleanup_root()
     return ctx.finish(
         exhaustive=True,
-        rule="all behaviour tuples of length 2 (thorough 3) from a 54-entry menu on mem (singles elsewhere and for 2 objectives), x catch x callbacks x 6 hostile hooks; tell: trial state x 13 values x 6 state args x skip_if_finished",
+        rule="n_jobs=2: all pairs of 6 behaviours (+3-trial programs, stop callback) x all schedules up to the preemption bound; n_jobs=1: all behaviour tuples of length 2 (thorough 3) from a 54-entry menu on mem (singles elsewhere and for 2 objectives), x catch x callbacks x 6 hostile hooks; tell: trial state x 13 values x 6 state args x skip_if_finished",
     )
 
 
